@@ -23,6 +23,32 @@ TRUSTED = ["xarray interpolate_na / ffill / bfill / shift / integrate / sum(min_
 ASSUMPTIONS = ["ordinates and weights are dyadic (k/8), thresholds / observations small integers or halves: float arithmetic is exact "
                "or compared to 1e-9", "thresholds and observations are finite or NaN (no infinities)",
                "the score is observed per forecast case (preserve_dims = all non-threshold dims); the mean over cases is checked as a relation"]
+MANIFEST = dict(
+    level="proof",
+    text="Kernel-checked Lean theorems about an executable model of crps_cdf_exact / crps_cdf_trapz / crps_cdf_brier_decomposition "
+         "(grids of any length): the code's piece formula equals Delta(p^2+pq+q^2)/3 = Simpson of the squared linear piece (exact for "
+         "quadratics: equals the antiderivative difference); for EVERY right-continuous step weight and every position of the "
+         "observation on the grid, total / underforecast / overforecast of the exact method equal the weighted cell sums "
+         "Sum w_cell * Simpson((lin - H)^2) (full strength after the repair of F3/F3b, commit c6c9dbb); under + over = total and both "
+         ">= 0 for non-negative weights; the trapezoid method equals the trapezoid sums of the sampled integrand and, for w = 1, the "
+         "trapezoid integral of the Brier decomposition (total and both components); weights summing to one give scores summing to the "
+         "unweighted score (exact and trapz); any NaN in a case makes exactly that case NaN. The pointwise kernels are regenerated from "
+         "the source by the AST translator on every run; the whole pipeline (grid = union of fcst / all obs / weight / additional "
+         "thresholds, 4 fill methods for forecast and weight, propagate_nans, components, guards) is tied by a differential "
+         "correspondence over all 4 x 2 x 2 option combinations per case, and an independent oracle compares the implementation with "
+         "the exact integral computed by the Lean Spec from the ORIGINAL knots (fill as a function of the knots), plus the relations.",
+    note="Trusted: Lean kernel; propext/Classical.choice/Quot.sound; SV.Fl (IEEE minus rounding/overflow/signed zero); py2lean; xarray "
+         "interpolate_na / ffill / bfill / shift / integrate / sum(min_count) / broadcast modelled by documented meaning and compared, "
+         "not verified. 'Integral' is bridged algebraically (Simpson = antiderivative difference for quadratics), the Fundamental "
+         "Theorem of Calculus is not re-proved. Proved for the integration step on the filled common grid; grid construction and "
+         "filling are compared (model vs code) and checked against the knot-function Spec by the oracle, not proved. Known finding "
+         "F18: a non-negative weight with a value above 1 is rejected (ValueError from fill_cdf's CDF guard) — Lean: "
+         "weight_in_unit_accepted + weight_above_one_counterexample. Repaired during this work and kept as untagged regression "
+         "cases: F3 (non-binary weights ignored by 'exact'), F3b (single weight-0 cell between weight-1 cells counted). "
+         "Per-case scores are observed (preserve_dims = non-threshold dims); the mean over cases only as a relation. No infinities, "
+         "no dask (F15 is C04's).",
+    technique="Lean 4 theorems over a hand-written executable model and translator-regenerated kernels + differential correspondence + exact-integral Lean Spec oracle",
+    design="6/C07")
 RULE = ("random CDF arrays (2-6 thresholds, decreasing runs, plateaus, NaN, 0-2 extra dims in any order), observations on a threshold / "
         "between two / outside the grid / NaN, optional threshold weight (0/1 steps, general values in [0,1], NaN, own thresholds and dims), "
         "additional thresholds; every base case is run under all 4 fill x 2 integration x 2 propagate_nans combinations (components on; "
@@ -126,6 +152,15 @@ REGRESSION = [
          additional=None, malformed=None),
     dict(thr=[0.0, 1.0, 2.0, 3.0], rows=[[0.25, 0.5, 0.75, 1.0]], extra={}, order=["T"], oob=False, obs_dims=[], obs_vals=[1.5],
          obs_order=[], w=dict(thr=[0.0, 1.0, 2.0, 3.0], dims=[], rows=[[0.0, 1.0, 0.0, 0.0]], order=["T"]), fillW="forward",
+         additional=None, malformed=None),
+]
+
+
+# witnesses of recorded findings (replayed on every run so that the KNOWN-FINDING line is stable)
+KNOWN_WITNESSES = [
+    # F18: a non-negative weight with a value above 1 is rejected (ValueError from fill_cdf's CDF bounds guard)
+    dict(thr=[0.0, 1.0, 2.0, 3.0], rows=[[0.25, 0.5, 0.75, 1.0]], extra={}, order=["T"], oob=False, obs_dims=[], obs_vals=[0.0],
+         obs_order=[], w=dict(thr=[0.0, 1.0, 2.0, 3.0], dims=[], rows=[[2.0, 2.0, 2.0, 2.0]], order=["T"]), fillW="forward",
          additional=None, malformed=None),
 ]
 
@@ -480,7 +515,7 @@ def check_brier(ctx, c, spec, batch):
 def oracle(ctx, boost):
     rng = ctx.rng
     mult = 5 if boost else 1
-    bases = list(REGRESSION)
+    bases = list(REGRESSION) + [dict(b) for b in KNOWN_WITNESSES]
     for _ in range(ctx.n(26, 600) * mult):
         b = gen_base(rng)
         if rng.random() < 0.04:
